@@ -67,6 +67,7 @@ int tracer_depth();
 void push_tracer(int kind);   // 0: recording tracer, 1: the library's stream_tracer on a string stream
 void drain_stream_tracers();
 void pop_tracer();
+void drop_tracer(int k);   // destroys the k-th live tracer (0 = oldest)
 int reporter_gen();
 // installs generation gen+1 through one of the two set_reporter overloads; returns true iff the
 // callables handed back are those of the generation that was installed before (checked by
